@@ -13,7 +13,7 @@ theorem Inv.frChange {s : State} (hI : Inv s) {h : Nat} {x : FrSt} {fx : Nat →
     Inv { s with fr := upd s.fr h x, fex := fx } := by
   have hI' := hI
   obtain ⟨kindC, kindF, lockOk, frWait, freshOk, freshUniq, freshVer, freshVerT, freshNode, wFreeTaken, preOk, postOk, ownOk, rsmTaken,
-    freeTaken, pubNode, waiting, parked, listOk, scanOk, prevOk, placed, oScanOk, oNoneOk, aUnlockOk, aNextOk, aResumeOk, aFreeOk,
+    freeTaken, pubNode, waiting, parked, listOk, scanOk, prevOk, placed, freshHolder, scanL0, unlockL0, oScanOk, oNoneOk, aUnlockOk, aNextOk, aResumeOk, aFreeOk,
     noRead, cTakeOk, cRemoveOk, allocUsed, noBad⟩ := hI
   constructor
   case kindC => exact kindC
@@ -38,6 +38,9 @@ theorem Inv.frChange {s : State} (hI : Inv s) {h : Nat} {x : FrSt} {fx : Nat →
   case scanOk => exact scanOk
   case prevOk => exact prevOk
   case placed => exact placed
+  case freshHolder => exact freshHolder
+  case scanL0 => exact scanL0
+  case unlockL0 => exact unlockL0
   case oScanOk => exact oScanOk
   case oNoneOk => exact oNoneOk
   case aUnlockOk => exact aUnlockOk
@@ -56,7 +59,7 @@ theorem Inv.wait {s : State} (hI : Inv s) {h f v : Nat} (hr : s.fr h = .running)
     Inv (({ s with fr := upd s.fr h .suspended }).setPc (.fr h) (.wAlloc f v)) := by
   have hI' := hI
   obtain ⟨kindC, kindF, lockOk, frWait, freshOk, freshUniq, freshVer, freshVerT, freshNode, wFreeTaken, preOk, postOk, ownOk, rsmTaken,
-    freeTaken, pubNode, waiting, parked, listOk, scanOk, prevOk, placed, oScanOk, oNoneOk, aUnlockOk, aNextOk, aResumeOk, aFreeOk,
+    freeTaken, pubNode, waiting, parked, listOk, scanOk, prevOk, placed, freshHolder, scanL0, unlockL0, oScanOk, oNoneOk, aUnlockOk, aNextOk, aResumeOk, aFreeOk,
     noRead, cTakeOk, cRemoveOk, allocUsed, noBad⟩ := hI
   constructor
   case kindC => inv_auto
@@ -96,6 +99,9 @@ theorem Inv.wait {s : State} (hI : Inv s) {h f v : Nat} (hr : s.fr h = .running)
     · inv_simp; grind [updA, upd, Pc.pend, Pc.locks]
     · inv_simp; grind [updA, upd]
   case placed => inv_auto
+  case freshHolder => inv_auto
+  case scanL0 => inv_auto
+  case unlockL0 => inv_auto
   case oScanOk => inv_auto
   case oNoneOk => inv_auto
   case aUnlockOk => inv_auto
@@ -117,7 +123,7 @@ theorem Inv.wFree {s : State} (hI : Inv s) {h n : Nat} (hp : s.pc (.fr h) = .wFr
   have hpo := hI.postOk (.fr h) n (by simp [hp, Pc.post])
   have hsus := hI.frWait h (by simp [hp])
   obtain ⟨kindC, kindF, lockOk, frWait, freshOk, freshUniq, freshVer, freshVerT, freshNode, wFreeTaken, preOk, postOk, ownOk, rsmTaken,
-    freeTaken, pubNode, waiting, parked, listOk, scanOk, prevOk, placed, oScanOk, oNoneOk, aUnlockOk, aNextOk, aResumeOk, aFreeOk,
+    freeTaken, pubNode, waiting, parked, listOk, scanOk, prevOk, placed, freshHolder, scanL0, unlockL0, oScanOk, oNoneOk, aUnlockOk, aNextOk, aResumeOk, aFreeOk,
     noRead, cTakeOk, cRemoveOk, allocUsed, noBad⟩ := hI
   constructor
   case kindC => inv_auto
@@ -159,6 +165,9 @@ theorem Inv.wFree {s : State} (hI : Inv s) {h n : Nat} (hp : s.pc (.fr h) = .wFr
     · inv_simp; grind [updA, upd, Pc.pend, Pc.locks]
     · inv_simp; grind [updA, upd]
   case placed => inv_auto
+  case freshHolder => inv_auto
+  case scanL0 => inv_auto
+  case unlockL0 => inv_auto
   case oScanOk => inv_auto
   case oNoneOk => inv_auto
   case aUnlockOk => inv_auto
